@@ -29,6 +29,12 @@ run_demo() {  # prints PASS or FAIL
     cargo build --offline >/dev/null 2>&1
     sh_demo="$m/demo/run_demo.sh"; [ -f "$sh_demo" ] || sh_demo="$m/demo/demo.sh"
     if timeout 900 bash "$sh_demo" >/dev/null 2>&1; then echo PASS; else echo FAIL; fi
+  elif ls "$m"/demo/demo_*.py >/dev/null 2>&1; then
+    cargo build --offline >/dev/null 2>&1
+    if timeout 600 python3 "$(ls "$m"/demo/demo_*.py | head -1)" >/dev/null 2>&1; then echo PASS; else echo FAIL; fi
+  elif [ -f "$m/demo/run.sh" ]; then
+    cargo build --offline >/dev/null 2>&1
+    if timeout 900 bash "$m/demo/run.sh" >/dev/null 2>&1; then echo PASS; else echo FAIL; fi
   elif [ -f "$m/demo/c16_stdin.rs" ]; then
     mkdir -p tacd/tests && cp "$m/demo/c16_stdin.rs" tacd/tests/
     out=$(cargo test --offline -p tacd --test c16_stdin 2>&1); rm -rf tacd/tests
